@@ -9,6 +9,8 @@ import (
 	"strings"
 	"testing"
 
+	"github.com/projecteru2/core/store"
+
 	"verif/harness/vcore"
 	"verif/harness/world"
 )
@@ -79,7 +81,9 @@ func c13Explore(t *testing.T, c *vcore.Ctx) {
 	if c.Thorough() {
 		ops = append(ops, wOp{Kind: "create", Strategy: "AUTO", Count: 3, Req: "mem"}, wOp{Kind: "create", Strategy: "FILL", Count: 2, Req: "mem"}, wOp{Kind: "create", Strategy: "AUTO", Count: 3, Req: "bind1"})
 	}
-	pres := [][]wOp{{}, {{Kind: "create", Strategy: "AUTO", Count: 1, Req: "mem", Include: []string{"n1"}}}}
+	pres := [][]wOp{{}, {{Kind: "create", Strategy: "AUTO", Count: 1, Req: "mem", Include: []string{"n1"}}},
+		// instances of sibling entrypoints whose names share a prefix with "web" must not be counted
+		{{Kind: "create", Strategy: "AUTO", Count: 2, Req: "mem", Include: []string{"n1"}, Entry: "web2"}, {Kind: "create", Strategy: "AUTO", Count: 1, Req: "mem", Include: []string{"n2"}, Entry: "we"}}}
 	var idx int64
 	for _, be := range []string{"etcd", "redis"} {
 		redis := be == "redis"
@@ -169,8 +173,30 @@ func c13One(t *testing.T, c *vcore.Ctx, b *world.Backend, opts world.InstanceOpt
 	var problems []string
 	sawMarker := false
 	nObs := 0
+	var obsStore store.Store
+	var obsClose func()
 	observe := func(where string) {
 		status, recorded, markers := deployStatus(b, redis)
+		// the count itself comes from the real Store.GetDeployStatus of an un-intercepted store;
+		// recorded workloads and markers come from the hook-free dump
+		if obsStore == nil {
+			obsStore, obsClose = b.NewObserverStore(redis)
+		}
+		// a request of another goroutine that passed its hook earlier may still be in flight, so
+		// the real call is only judged when the stored keys were the same before and after it
+		for try := 0; try < 4; try++ {
+			real, err := obsStore.GetDeployStatus(context.Background(), "app", "web")
+			status2, recorded2, markers2 := deployStatus(b, redis)
+			stable := vcore.JSON(status) == vcore.JSON(status2) && vcore.JSON(recorded) == vcore.JSON(recorded2)
+			if err == nil && stable {
+				if vcore.JSON(real) != vcore.JSON(status) && len(problems) < 3 {
+					problems = append(problems, fmt.Sprintf("reported-count-differs-from-stored-keys|%s: GetDeployStatus reports %v, recorded workloads + markers of this entrypoint give %v", where, real, status))
+				}
+				status = real
+				break
+			}
+			status, recorded, markers = status2, recorded2, markers2
+		}
 		nObs++
 		nodes := map[string]bool{}
 		for n := range status {
@@ -201,8 +227,18 @@ func c13One(t *testing.T, c *vcore.Ctx, b *world.Backend, opts world.InstanceOpt
 	var res wResult
 	pre := b.View(redis)
 	tr := wexec(t, b, opts, cc.Fault, 11,
-		func(ctx context.Context, inst *world.Instance) { res = runOp(ctx, inst, cc.Op, pre) }, nil,
+		func(ctx context.Context, inst *world.Instance) { res = runOp(ctx, inst, cc.Op, pre) },
+		func(ctx context.Context, inst *world.Instance) {
+			observe("after return")
+			if obsClose != nil {
+				obsClose()
+				obsStore, obsClose = nil, nil
+			}
+		},
 		func(label string, occ int, s world.Step) { observe("before " + label) })
+	if obsClose != nil { // the run ended without reaching the final observation (stuck call)
+		obsClose()
+	}
 	c.Eval()
 	c.Exec()
 	if cc.Fault != nil && !tr.Delivered {
